@@ -54,20 +54,27 @@ class C05(Prop):
                   "S3 and S5. C05_final_read_finishes: with the state-derived fuel Exec.final_fuel the final reader always completes when all threads "
                   "are done and returns exactly the published slots of the live chain; C05_spec_conservation_on_model: clause S5 (pushes = cleared "
                   "+ final, no duplicate, same number) on the model's run of every case outside the late-claim class when the run is done. "
+                  "C05_spec_pub_positions_on_model: a push-table entry with a 503 position is a completed push whose value sits in a published "
+                  "slot. C05_is_empty_true_beyond_B_threads: with 67 threads is_empty returns true over 64 completed resident pushes (model and "
+                  "real code agree): clause S3 needs 'at most 64 threads'. C05_race_example_run_ok: a racing hand-over case with spec_ok = true. "
                   "The open finding is a theorem "
                   "(C05_late_claim_refutes) and so are the two repaired defects (the model of the code before each fix violates spec_ok outside "
                   "the late-claim class, the model after the fix does not). Tied to /repo by (i) replaying generated schedules on the real "
                   "AtomicBucket<Val> through yield points at every shared-memory access and comparing step trace, every slice handed to every "
                   "callback, every is_empty result and a final sequential read, with the executable property spec_ok evaluated on the "
                   "implementation's outputs, and (ii) a free-running stress engine on real threads judged by the same property.")
-    level_note = ("NOT proved: the conjunction C05_spec_ok_on_model. Of the trace-level checker spec_ok, proved on the model's run are all clauses "
-                  "except S3: S0, S1, S2, S4 for every case (C05_spec_ok_on_model_partial2) and S5 for every case outside the late-claim class "
-                  "whose run is done (C05_spec_conservation_on_model). Missing: S3 (snapshot / is_empty completeness on trace positions, under "
-                  "done): C05_snapshot_sees_completed and C05_is_empty_sound exist at configuration level but the 503 / 530 / 520 / 541 positions "
-                  "and empty_end are not yet in a trace ledger; that clause is tied to the theorems only by evaluation (spec_ok on every replayed "
-                  "schedule, model agreeing step by step, and the stress oracle). Corrected oracle defect: Exec.final_data used to give the final "
-                  "reader a constant 400 rounds; a live chain above ~133 blocks made the model return final = []; the fuel is now 4 * blocks + 8, "
-                  "proved sufficient (regression C05_oversized_final_read_regression). C05_is_empty_sound needs at most B threads for its strong reading; with more, is_empty = true can miss "
+    level_note = ("NOT proved: C05_spec_completeness_on_model (clause S3 of the trace-level checker: snapshot / is_empty completeness on trace "
+                  "positions, under done) and therefore the conjunction C05_spec_ok_on_model. All other clauses are proved on the model's run: S0, "
+                  "S1, S2, S4 for every case (C05_spec_ok_on_model_partial2), S5 outside the late-claim class when the run is done "
+                  "(C05_spec_conservation_on_model). Towards S3 only the publication column is tied to the configuration "
+                  "(C05_spec_pub_positions_on_model); missing are the 530 / 520 / 541 positions and empty_end in the trace ledger, the alignment "
+                  "of data_with / is_empty / clear_with calls with them, a detach ledger (which 541 detached which block) for the `clears` "
+                  "disjunct of `accounts`, and the use of C05_snapshot_sees_completed / C05_is_empty_sound along the trace; S3 is tied to those "
+                  "theorems only by evaluation (spec_ok on every replayed schedule, model agreeing step by step, stress oracle). S3 is FALSE on "
+                  "model AND real code with more than 64 concurrent pushers (C05_is_empty_true_beyond_B_threads, 67 threads, replayed on the real "
+                  "code: agree, spec_ok false, outside the known class): is_empty looks only at the head block and its successor; generated cases "
+                  "have at most 4 threads, so the check never prints it, a hand-written replay with > 64 threads would. Corrected oracle defect: "
+                  "Exec.final_data's constant fuel (400) replaced by 4 * blocks + 8, proved sufficient. C05_is_empty_sound needs at most B threads for its strong reading; with more, is_empty = true can miss "
                   "completed pushes deeper than the head's successor (stated in the theorem). "
                   "The conservation theorem speaks about "
                   "configurations (slots, ownership, per-thread delivered lists); its reading as 'completed = delivered (+) resident' uses "
